@@ -80,6 +80,9 @@ func (rmap *Records) RenameRecord(key string, newkey string) error {
 	if !ok {
 		return fmt.Errorf("%w: %s", ErrNotFound, key)
 	}
+	if key == newkey {
+		return nil
+	}
 	record.Key = newkey
 	err := rmap.SetRecord(record)
 	if err != nil {
